@@ -156,6 +156,9 @@ func (e *SpecEnv) exprLoc(x ast.Expr) Val {
 			if al.Loc != nil && al.Loc.Arr == "" {
 				return Val{T: al.Loc.Key, Typ: types.NewPointer(al.Typ)}
 			}
+			if al.Loc != nil {
+				return Val{T: u.addrOf(al.Loc), Typ: types.NewPointer(al.Typ), Loc: al.Loc, Addr: true}
+			}
 			sfail("address-of unsupported")
 		}
 		sfail("unsupported unary %s", n.Op)
@@ -164,6 +167,9 @@ func (e *SpecEnv) exprLoc(x ast.Expr) Val {
 		pt, ok := p.Typ.Underlying().(*types.Pointer)
 		if !ok {
 			sfail("deref of non-pointer %s", p.Typ)
+		}
+		if p.Addr && p.Loc != nil && p.Loc.Arr != "" {
+			return Val{T: u.load(e.heap, p.Loc), Typ: pt.Elem(), Loc: p.Loc}
 		}
 		return e.derefVal(p.T, pt.Elem())
 	case *ast.BinaryExpr:
@@ -213,7 +219,9 @@ func (e *SpecEnv) derefVal(ref string, el types.Type) Val {
 func (e *SpecEnv) ident(name string) Val {
 	u := e.u
 	if v, ok := e.vars[name]; ok {
-		if v.Loc != nil && v.T == "" {
+		if v.Addr && v.Loc != nil && v.T == "" {
+			v.T = u.addrOf(v.Loc) // an interior pointer: non-nil symbolic address
+		} else if v.Loc != nil && v.T == "" {
 			v.T = u.load(e.heap, v.Loc)
 		}
 		return v
@@ -430,6 +438,17 @@ func (e *SpecEnv) selectField(base Val, name string) Val {
 		sfail("no field %s in %s", name, base.Typ)
 	}
 	cur := base
+	if cur.Addr && cur.Loc != nil {
+		// the address of an embedded object: select inside the location it designates
+		if pt, ok := cur.Typ.Underlying().(*types.Pointer); ok {
+			l := *cur.Loc
+			if l.Arr == "" {
+				cur = Val{T: u.loadStruct(e.heap, l.Key, pt.Elem()), Typ: pt.Elem(), Loc: &l}
+			} else {
+				cur = Val{T: u.load(e.heap, &l), Typ: pt.Elem(), Loc: &l}
+			}
+		}
+	}
 	for _, i := range path {
 		t := cur.Typ
 		if pt, ok := t.Underlying().(*types.Pointer); ok {
